@@ -15,6 +15,9 @@ LEVEL = "exploration"
 PRELUDE = open(os.path.join(core.VERIF, "janet", "canon.janet")).read() + r'''
 (def LOG @[])
 (defn log [& xs] (array/push LOG (tuple ;xs)) (last xs))
+# run a thunk from inside a callback that C code calls back into (janet_call), and hand its result through
+(defn via-replace [thunk] (var r nil) (string/replace "a" (fn [_] (set r (thunk)) "x") "a") r)
+(defn via-cmt [thunk] (var r nil) (peg/match ~(cmt (<- 1) ,(fn [_] (set r (thunk)) true)) "a") r)
 '''
 
 TERMINAL = {"error", "user0", "user1", "user2", "user3", "user4"}
@@ -148,7 +151,7 @@ class Model:
             return "cannot resume fiber with status :%s" % c.status
         return None
 
-    def do_resume(self, f, c, value, cancel=False):
+    def do_resume(self, f, c, value, cancel=False, via_c=False):
         msg = self.can_resume_error(c)
         if msg:
             raise MError(msg.encode())
@@ -161,6 +164,9 @@ class Model:
                 f.child = None
                 return x
             depth += 1
+            if via_c and sig != "error":
+                # a non-error signal leaving through a C callback is coerced to an error by janet_call: deliberately not modelled
+                raise RuntimeError("c-boundary")
             if sig in TERMINAL:
                 # the signal leaves this fiber as well (through its cleanup scopes), keeping c as its child
                 f.last_value = c.last_value
@@ -212,6 +218,11 @@ class Model:
                 c = self.fibers[a[1]]
                 x = yield from self.do_resume(f, c, a[2], cancel=(kind == "cancel"))
                 self.L(Kw(kind), f.fid, a[1], x, Kw(c.status))
+            elif kind == "cresume":
+                # the resume happens inside a callback that C code invokes (string/replace, peg cmt): same protocol as a plain resume
+                c = self.fibers[a[1]]
+                x = yield from self.do_resume(f, c, a[2], via_c=True)
+                self.L(Kw("resume"), f.fid, a[1], x, Kw(c.status))
             elif kind in ("presume", "pcancel"):
                 c = self.fibers[a[1]]
                 try:
@@ -328,7 +339,7 @@ class Gen:
                 acts.append((r.choice(["resume", "resume", "presume"]), cid, self.val()))
             elif c < 0.68 and kids:
                 cid = r.choice(kids)
-                acts.append((r.choice(["resume", "resume", "resume", "presume", "cancel", "pcancel", "presume"]), cid, self.val()))
+                acts.append((r.choice(["resume", "resume", "resume", "presume", "cancel", "pcancel", "presume", "cresume", "cresume"]), cid, self.val()))
             elif c < 0.76 and kids:
                 acts.append(("status", r.choice(kids)))
             elif c < 0.80 and kids:
@@ -380,6 +391,9 @@ def emit_block(acts, fid, indent=1, fiber_body=False):
                 out.append("(def F%d (fiber/new (fn []\n%s) :%s))" % (cid, body, flags) if flags else "(def F%d (fiber/new (fn []\n%s) \"\"))" % (cid, body))
         elif k in ("resume", "cancel"):
             out.append("(let [x (%s F%d %s)] (log :%s %d %d x (fiber/status F%d)))" % (k, a[1], emit(a[2]), k, fid, a[1], a[1]))
+        elif k == "cresume":
+            route = "via-replace" if (a[1] + fid) % 2 == 0 else "via-cmt"
+            out.append("(let [x (%s (fn [] (resume F%d %s)))] (log :resume %d %d x (fiber/status F%d)))" % (route, a[1], emit(a[2]), fid, a[1], a[1]))
         elif k in ("presume", "pcancel"):
             op = "resume" if k == "presume" else "cancel"
             out.append("(let [x (protect (%s F%d %s))] (log :%s %d %d x (fiber/status F%d)))" % (op, a[1], emit(a[2]), k, fid, a[1], a[1]))
